@@ -54,8 +54,15 @@ Record oracles := mkO {
   o_gfm_filter : str -> str;                         (* html_to_nodes.RE_FLOW substitution (gfm mode) *)
   o_nl : str -> str;                                 (* markdown_it normalizeLink (ResolveAnchorIds) *)
   o_p2d_raw : str -> option str;                     (* sphinx: env.path2doc(env.relfn2path(p)) (no existence check) *)
-  o_path2doc : str -> option (option str)            (* sphinx: None no such file; Some None a file that is no
+  o_path2doc : str -> option (option str);           (* sphinx: None no such file; Some None a file that is no
                                                         document; Some (Some d) the document d *)
+  o_docjoin : str -> option str;                     (* sphinx: Some d when d = docname_join(docname, p) is in
+                                                        env.found_docs *)
+  o_access : str -> bool;                            (* sphinx: os.access(abs path of p, R_OK) (False on NUL) *)
+  o_split1 : str -> list str;                        (* str.split(maxsplit=1) *)
+  o_dyn : list str -> option (list node * list str)  (* the nodes (identity labels ignored) and the MyST warning
+                                                        tags a directive / role / substitution / front-matter run
+                                                        produces; key: kind :: name :: arguments ... *)
 }.
 
 (* ---- literals ---- *)
@@ -104,6 +111,11 @@ Definition k_tbody := Eval vm_compute in lit "tbody".
 Definition k_tr := Eval vm_compute in lit "tr".
 Definition k_th := Eval vm_compute in lit "th".
 Definition k_td := Eval vm_compute in lit "td".
+Definition k_colon_fence := Eval vm_compute in lit "colon_fence".
+Definition k_myst_role := Eval vm_compute in lit "myst_role".
+Definition k_substitution_inline := Eval vm_compute in lit "substitution_inline".
+Definition k_substitution_block := Eval vm_compute in lit "substitution_block".
+Definition k_front_matter := Eval vm_compute in lit "front_matter".
 
 (* docutils tag names / attribute names *)
 Definition n_document := Eval vm_compute in lit "document".
@@ -216,6 +228,17 @@ Definition v_path_colon := Eval vm_compute in lit "path:".
 Definition v_project_colon := Eval vm_compute in lit "project:".
 Definition v_equation_ := Eval vm_compute in lit "equation-".
 Definition v_uuid_ := Eval vm_compute in lit "amsmath-index-".
+Definition v_directive := Eval vm_compute in lit "directive".
+Definition v_sphinx := Eval vm_compute in lit "sphinx".
+Definition v_docutils := Eval vm_compute in lit "docutils".
+Definition v_role := Eval vm_compute in lit "role".
+Definition v_substitution := Eval vm_compute in lit "substitution".
+Definition v_colons := Eval vm_compute in lit ":::".
+Definition v_scheme_sep := Eval vm_compute in lit "://".
+Definition a_name := Eval vm_compute in lit "name".
+Definition a_names := Eval vm_compute in lit "names".
+Definition a_dupnames := Eval vm_compute in lit "dupnames".
+Definition a_ids := Eval vm_compute in lit "ids".
 
 (* warning tags (type.subtype) *)
 Definition w_render := Eval vm_compute in lit "myst.render".
@@ -234,7 +257,8 @@ Inductive kind :=
 | KHtmlBlock | KHtmlInline | KTable | KMathInline | KMathInlineDouble | KMathSingle | KMathBlock
 | KMathBlockLabel | KAmsmath | KFootnoteRef | KFootnoteReference | KMystTarget | KMystBlockBreak
 | KMystLineComment | KDl | KDt | KDd | KFieldList | KFieldlistName | KFieldlistBody | KSpan
-| KThead | KTbody | KTr | KTh | KTd | KOther.
+| KThead | KTbody | KTr | KTh | KTd
+| KColonFence | KMystRole | KSubstInline | KSubstBlock | KFrontMatter | KOther.
 
 Definition kind_table : list (str * kind) :=
   [(k_paragraph, KParagraph); (k_inline, KInline); (k_text, KText); (k_softbreak, KSoftbreak);
@@ -248,7 +272,9 @@ Definition kind_table : list (str * kind) :=
    (k_myst_target, KMystTarget); (k_myst_block_break, KMystBlockBreak);
    (k_myst_line_comment, KMystLineComment); (k_dl, KDl); (k_dt, KDt); (k_dd, KDd);
    (k_field_list, KFieldList); (k_fieldlist_name, KFieldlistName); (k_fieldlist_body, KFieldlistBody);
-   (k_span, KSpan); (k_thead, KThead); (k_tbody, KTbody); (k_tr, KTr); (k_th, KTh); (k_td, KTd)].
+   (k_span, KSpan); (k_thead, KThead); (k_tbody, KTbody); (k_tr, KTr); (k_th, KTh); (k_td, KTd);
+   (k_colon_fence, KColonFence); (k_myst_role, KMystRole); (k_substitution_inline, KSubstInline);
+   (k_substitution_block, KSubstBlock); (k_front_matter, KFrontMatter)].
 
 Definition kind_of (ty : str) : kind :=
   match assoc ty kind_table with Some k => k | None => KOther end.
@@ -296,6 +322,54 @@ Definition heading_level (tg : str) : option N :=
   | _ :: d :: _ => if (48 <=? d) && (d <=? 57) then Some (d - 48) else None
   | _ => None
   end.
+
+(* ---- dynamic syntax (directives, roles, substitutions, front matter): the nodes such a run produces are an
+   oracle; the renderer gives them to the current node (self.current_node += nodes).  The oracle's nodes are
+   new Python objects: the model numbers them in document order with fresh allocation numbers. ---- *)
+Fixpoint relabel (n : node) (c : N) : node * N :=
+  match n with
+  | Text _ s => (Text c s, N.succ c)
+  | Elem _ tg a cs =>
+      let '(cs', c') :=
+          (fix go (l : list node) (c : N) : list node * N :=
+             match l with
+             | [] => ([], c)
+             | x :: r => let '(x', c1) := relabel x c in
+                         let '(r', c2) := go r c1 in (x' :: r', c2)
+             end) cs (N.succ c) in
+      (Elem c tg a cs', c')
+  end.
+
+Fixpoint relabel_list (l : list node) (c : N) : list node * N :=
+  match l with
+  | [] => ([], c)
+  | x :: r => let '(x', c1) := relabel x c in
+              let '(r', c2) := relabel_list r c1 in (x' :: r', c2)
+  end.
+
+Definition relabel_all (ns : list node) : fop (list node) := fun f =>
+  let '(ns', c) := relabel_list ns (nxt f) in Good (ns', set_nxt f c).
+
+Fixpoint log_warnings (ws : list str) : fop unit :=
+  match ws with
+  | [] => fret tt
+  | w :: r => _ <-- log_warning w ;; log_warnings r
+  end.
+
+(* the part of the dynamic syntax the model covers: the run leaves the document registries alone (no names / ids
+   on the nodes) and returns no section, transition, or table structure *)
+Fixpoint dyn_node_ok (n : node) : bool :=
+  match n with
+  | Text _ _ => true
+  | Elem _ tg a cs =>
+      negb (str_eqb tg n_section) && negb (str_eqb tg n_transition) && negb (str_eqb tg n_tgroup)
+      && negb (str_eqb tg n_document)
+      && negb (has_key a_names a || has_key a_dupnames a || has_key a_ids a)
+      && forallb dyn_node_ok cs
+  end.
+
+Fixpoint contains_sub (s p : str) : bool :=
+  startswith s p || match s with [] => false | _ :: r => contains_sub r p end.
 
 Section Render.
   Variable B : backend.
@@ -442,11 +516,32 @@ Section Render.
   Definition starts_brace (s : str) : bool := match s with c :: _ => c =? 123 | [] => false end.
   Definition ends_brace (s : str) : bool := match rev s with c :: _ => c =? 125 | [] => false end.
 
+  (* self.current_node += <the nodes of the run> *)
+  Definition dyn_full_key (key : list str) : list str := (if is_sphinx then v_sphinx else v_docutils) :: key.
+
+  Definition dyn_splice (key : list str) : prog :=
+    match o_dyn OR (dyn_full_key key) with
+    | None => Fail ENotModelled
+    | Some (ns, ws) =>
+        if forallb dyn_node_ok ns then
+          _ <- log_warnings ws ;
+          ns' <- relabel_all ns ;
+          append_all ns' Done
+        else Fail ENotModelled
+    end.
+
+  Definition strip_braces (s : str) : str := drop_last (drop 1 s).       (* name[1:-1] *)
+  (* parts = info.strip().split(maxsplit=1); parts[1] if len(parts) > 1 else "" *)
+  Definition directive_arguments (info : str) : str :=
+    match o_split1 OR (o_strip OR info) with _ :: a :: _ => a | _ => [] end.
+
   Definition render_fence (t : tok) (ks : list rt) : prog :=
     if negb (code_attrs_static t) then Fail ENotModelled else
     let name := match o_split OR (o_strip OR (info t)) with w :: _ => w | [] => [] end in
     let is_myst := match c_mode C with Myst => true | _ => false end in
-    if is_myst && (str_eqb name v_eval_rst || (starts_brace name && ends_brace name)) then Fail ENotModelled
+    if is_myst && str_eqb name v_eval_rst then Fail ENotModelled
+    else if is_myst && starts_brace name && ends_brace name then
+      dyn_splice [v_directive; strip_braces name; directive_arguments (info t); content t]
     else
       let name := if is_empty name && is_sphinx then c_highlight_language C else name in
       create_highlighted_code_block (content t) (Some name) (fun n =>
@@ -568,9 +663,18 @@ Section Render.
             ((a_refdomain, [v_none]) :: (a_reftarget, [path_dest]) :: xref_attrs t ks)
             [v_xref; v_download; v_myst] path_dest
       | None =>
-          process_wrap_node t ks o n_pending_xref
-            ((a_refdomain, [v_none]) :: (a_reftarget, [destination]) :: xref_attrs t ks)
-            [v_xref; v_myst] path_dest
+          match (match path_id with Some _ => o_docjoin OR path_dest | None => None end) with
+          | Some docname =>
+              (* a document referenced without its extension, with a heading anchor *)
+              process_wrap_node t ks o n_pending_xref
+                ((a_refdomain, [v_doc]) :: (a_reftarget, [docname]) :: (a_reftargetid, [ostr path_id])
+                                        :: xref_attrs t ks)
+                [v_xref; v_myst] path_dest
+          | None =>
+              process_wrap_node t ks o n_pending_xref
+                ((a_refdomain, [v_none]) :: (a_reftarget, [destination]) :: xref_attrs t ks)
+                [v_xref; v_myst] path_dest
+          end
       end
     else
       o <- alloc ;
@@ -581,6 +685,10 @@ Section Render.
     if is_sphinx then
       let d0 := o_nlt OR (href_of t) in
       let destination := if startswith d0 v_path_colon then drop 5 d0 else d0 in
+      if negb (contains_sub destination v_scheme_sep) && negb (o_access OR destination) then
+        w <- create_warning w_xref_missing ;
+        Append w (render_link_url t ks)
+      else
       o <- alloc ;
       process_wrap_node t ks o n_download_reference
         ((a_refdomain, [v_none]) :: (a_reftarget, [destination]) :: xref_attrs t ks)
@@ -912,6 +1020,20 @@ Section Render.
 
   Definition render_span (t : tok) (ks : list rt) : prog := container t ks k_inline [] keys_ci.
 
+  (* render_colon_fence: a directive (the div form needs a nested parse and is not modelled) *)
+  Definition render_colon_fence (t : tok) (ks : list rt) : prog :=
+    let name := match o_split OR (o_strip OR (info t)) with w :: _ => w | [] => [] end in
+    if starts_brace name && ends_brace name then
+      dyn_splice [v_directive; strip_braces name; directive_arguments (info t);
+                  if startswith (content t) v_colons then 10 :: content t else content t]
+    else Fail ENotModelled.
+
+  Definition render_myst_role (t : tok) (ks : list rt) : prog :=
+    match assoc a_name (meta t) with
+    | Some name => dyn_splice [v_role; name; content t]
+    | None => Fail (EPy KeyError)
+    end.
+
   (* self.rules[f"render_{type}"](token) or the "No render method" warning *)
   Definition dispatch (t : tok) (ks : list rt) : prog :=
     if negb (has_rule (ty t)) then (w <- create_warning w_render ; Append w Done)
@@ -953,6 +1075,11 @@ Section Render.
       | KDl => render_dl t ks
       | KFieldList => render_field_list t ks
       | KSpan => render_span t ks
+      | KColonFence => render_colon_fence t ks
+      | KMystRole => render_myst_role t ks
+      | KSubstInline => dyn_splice [v_substitution; v_true; content t]
+      | KSubstBlock => dyn_splice [v_substitution; v_false; content t]
+      | KFrontMatter => dyn_splice [k_front_matter; content t]
       | KDt | KDd | KFieldlistName | KFieldlistBody | KThead | KTbody | KTr | KTh | KTd | KOther => Fail ENotModelled
       end.
 
@@ -989,10 +1116,6 @@ Section Render.
 End Render.
 
 (* merge the side table (names, dupnames, ids) into the tree: what the Python objects show *)
-Definition a_names := Eval vm_compute in lit "names".
-Definition a_dupnames := Eval vm_compute in lit "dupnames".
-Definition a_ids := Eval vm_compute in lit "ids".
-
 Definition deco_attrs (objs : list (N * nrec)) (o : N) (a : nattrs) : nattrs :=
   match nassoc o objs with
   | None => a
